@@ -22,6 +22,10 @@ def queries(ctx):
     qs.append(Q(name="compositional_%d" % cap, harness="C14_uid.c", units=UNITS,
                 defines=("ARGCAP=%d" % cap, "VL_NO_ATOL=1", "V_STR_CAP=%d" % (cap + 1)), unwind=cap + 3, timeout=900, mem_gb=8,
                 bounds="list = %d arbitrary bytes (up to %d items incl. empty ones); per-item values arbitrary in [0,2^32-2]; uid, euid arbitrary 32-bit" % (cap, cap + 1)))
+    for li in ((10,) if not thorough else (9, 10, 11)):
+        qs.append(Q(name="compositional_longitem%d" % li, harness="C14_uid.c", units=UNITS,
+                    defines=("ARGCAP=%d" % (li + 2), "LONGITEM=%d" % li, "VL_NO_ATOL=1", "V_STR_CAP=%d" % (li + 3), "VL_MALLOC_CAP=64", "NO_EUID2=1"), unwind=li + 5, timeout=900, mem_gb=8,
+                    bounds="list = one item of exactly %d arbitrary bytes, optionally followed by ',' and one more byte; values arbitrary" % li))
     for items, digits in ([(2, 3)] if not thorough else [(3, 3), (2, 5), (4, 2)]):
         n = items * (digits + 1) + 1
         qs.append(Q(name="digits_%dx%d" % (items, digits), harness="C14_uid.c", units=UNITS,
